@@ -161,6 +161,10 @@ def run_c17(ctx):
     for i in range(40 if th else 12):
         cases.append({"point": "none", "k": 1, "packet": i % 3 == 0, "n": 200000 if i % 3 else 20000, "kill_after_us": rnd.randint(200, 30000)})
     cases.append({"point": "none", "k": 1, "packet": False, "n": 3000})
+    # the file cannot grow beyond fsize bytes (RLIMIT_FSIZE): a write comes back short, the next fails;
+    # whatever work() acknowledged must be in the file
+    for fs, chunk in ((24576, 6000), (40000, 16000), (10000, 5000), (70000, 9000)):
+        cases.append({"point": "none", "k": fs % 7 + 1, "packet": False, "n": 60000, "stream": 65536, "chunk": chunk, "fsize": fs})
     cases.append({"point": "none", "k": 1, "packet": True, "n": 100})
     cf, of = ctx.path("crash-cases.ndjson"), ctx.path("crash.ndjson")
     with open(cf, "w") as f:
